@@ -29,6 +29,7 @@ def driver(insts):
         out.append("  (void)(a == f); (void)(f == a); (void)(a != f); (void)(f != a); (void)(a < f); (void)(f < a); (void)(a <= f); (void)(f <= a); (void)(a > f); (void)(f > a); (void)(a >= f); (void)(f >= a);")
         out.append("  std::basic_string<%s> ss; (void)(a == ss); (void)(ss == a); (void)(a != ss); (void)(ss != a); (void)(a < ss); (void)(ss < a); (void)(a <= ss); (void)(ss <= a); (void)(a > ss); (void)(ss > a); (void)(a >= ss); (void)(ss >= a);" % ct)
         out.append("  (void)std::hash<%s>()(a); os << a; is >> a;" % tag)
+        out.append("  xtl::getline(is, a); xtl::getline(is, a, %s('x')); xtl::getline(std::move(is), a); xtl::getline(std::move(is), a, %s('x'));" % (ct, ct))
         out.append("}")
     out.append("}")
     return "\n".join(out) + "\n"
